@@ -154,7 +154,7 @@ func judge(c *vk.Ctx, tr *tracker, b, e int, lastAtCall int, res rig.StepResult,
 
 func main() {
 	c := vk.Init("C10")
-	c.Rule("(1) EXHAUSTIVE: for K in 1..8 outbound messages of mixed kinds (Logon/Logon reply, application sends, Heartbeat replies to TestRequests, Rejects of damaged messages), both roles, classes fresh-objects and reused-object: every ResendRequest(b,e) with (b,e) in [0,K+2]^2 on a fresh session; first transmissions are recorded from Outgoing() as emitted and compared byte for byte. (2) random sessions with K up to 200 and up to 12 repeated/overlapping requests each. (3) Logon gap: counter store preset to c, Logon with 34=r, all (c,r) in [0,6]x[1,8], both roles: r>c+1 must draw a ResendRequest with 7=c+1. (4) thorough: 3 goroutines send while requests are fed; retransmissions must be byte-identical, contiguous b..n with n between last-sent-at-call and last-sent-at-return. distinct = (role,class,K,b,e,traffic); non-trivial = request inside the sent range or e=0")
+	c.Rule("(1) EXHAUSTIVE: for K in 1..8 outbound messages of mixed kinds (Logon/Logon reply, application sends, Heartbeat replies to TestRequests, Rejects of damaged messages), both roles, classes fresh-objects and reused-object: every ResendRequest(b,e) with (b,e) in [0,K+2]^2 on a fresh session; first transmissions are recorded from Outgoing() as emitted and compared byte for byte. (2) random sessions with K up to 200 and up to 12 repeated/overlapping requests each. (3) Logon gap: counter store preset to c, Logon with 34=r, all (c,r) in [0,6]x[1,8], both roles: r>c+1 must draw a ResendRequest with 7=c+1; and the same at a second logon of one session (after its own Logout was answered, or after the peer's Logout), the second Logon skipping 0, 1 or 3 numbers. (4) thorough: 3 goroutines send while requests are fed; retransmissions must be byte-identical, contiguous b..n with n between last-sent-at-call and last-sent-at-return. distinct = (role,class,K,b,e,traffic); non-trivial = request inside the sent range or e=0")
 	c.Assume("precondition: no outgoing handler refuses and the store does not fail (every assigned number was saved)")
 	type job struct {
 		role  rig.Role
@@ -309,6 +309,62 @@ func main() {
 					c.Count("gap_requests_checked", 1)
 				}
 				r.Close()
+			}
+		}
+	}
+
+	// (3b) the expected number at a SECOND logon of the same session: every message received during the first logon
+	// counts, including the Logout that ended it (the peer's own, or its answer to ours)
+	for _, role := range []rig.Role{rig.Acceptor, rig.Initiator} {
+		for _, ending := range []string{"own-logout-answered", "peer-logout"} {
+			for k := 0; k <= 2; k++ {
+				for _, g := range []int{0, 1, 3} {
+					r, err := rig.NewStepRig(rig.StepCfg{Role: role, HeartBtInt: 30, Limits: &session.IntLimits{Min: 5, Max: 60}})
+					if err != nil {
+						continue
+					}
+					p := rig.NewPeer()
+					desc := fmt.Sprintf("%s second-logon after %s, %d inbound messages in the first logon, second Logon skips %d numbers", role, ending, k, g)
+					replay := map[string]interface{}{"scenario": desc, "seed": c.Seed}
+					ok := r.Inbound(p.Logon(30, "0")).Logged
+					for j := 0; j < k && ok; j++ {
+						r.Inbound(p.Heartbeat())
+					}
+					if ok {
+						if ending == "own-logout-answered" {
+							r.Do(func() error { return r.S.Logout() })
+						}
+						r.Inbound(p.Logout())
+						ok = !r.S.IsLogged()
+					}
+					if !ok {
+						c.Inconclusive("could not reach the logged-out state: " + desc)
+						r.Close()
+						continue
+					}
+					next := p.Seq + 1
+					p.Seq += g
+					res := r.Inbound(p.Logon(30, "0"))
+					var rq []rig.Out
+					for _, o := range res.Outs {
+						if o.Type == "2" {
+							rq = append(rq, o)
+						}
+					}
+					c.Eval(vk.Hash64([]byte("gap2"), []byte(desc)), true)
+					c.Count("second_logon_pairs_checked", 1)
+					switch {
+					case !res.Logged:
+						c.Count("second_logons_not_accepted(not judged here)", 1)
+					case g == 0 && len(rq) != 0:
+						c.Violate("C10/resend-requested-although-nothing-is-missing/"+role.String()+"/"+ending, fmt.Sprintf("%s: the second Logon carries the next expected number %d, yet the session asked for a resend from 7=%s", desc, next, fixref.GetS(rq[0].Fields, rig.TBeginSeq)), replay)
+					case g > 0 && len(rq) != 1:
+						c.Violate("C10/gap-not-requested/"+role.String()+"/second-logon", fmt.Sprintf("%s: drew %d ResendRequests", desc, len(rq)), replay)
+					case g > 0 && fixref.GetS(rq[0].Fields, rig.TBeginSeq) != strconv.Itoa(next):
+						c.Violate("C10/gap-request-wrong-begin/"+role.String()+"/second-logon", fmt.Sprintf("%s: ResendRequest asks from 7=%s, the first missing number is %d", desc, fixref.GetS(rq[0].Fields, rig.TBeginSeq), next), replay)
+					}
+					r.Close()
+				}
 			}
 		}
 	}
